@@ -272,7 +272,9 @@ def gen(quick):
                             yield (seqs, slens, base, None)
             # labels with many quote characters / hundreds of characters (the label is written with the interval, whatever its length)
             if n <= 2 and ns <= 1:
-                for suffix in (' "a" "b" "c" "d" "e"', ' ' + '"' * 30, " " + "x" * 9000):
+                # ... and labels that are NOT in Unicode normalisation form C (a base letter followed by a combining mark, conjoining jamo, the
+                # ANGSTROM / OHM signs): canonically equivalent to another string, but the label is written exactly as it is
+                for suffix in (' "a" "b" "c" "d" "e"', ' ' + '"' * 30, " " + "x" * 9000, " e\u0301 a\u0303", " \u1112\u1161\u11ab \u212b\u2126", " \u00e9 \ufb01"):
                     for slens in itertools.product((1e-12, 1.1e-8), repeat=ns):
                         yield (seqs, slens, 0.3, 1e-8, suffix)
             # laid out backwards from a whole number: boundaries a sliver BELOW 1, 100 and 4096 (numbers that are nearly but not quite integral)
